@@ -1174,7 +1174,7 @@ Proof.
   - (* FCons *) intros a s IHs r IHr. apply sim_fields_cons; assumption.
   - (* DNil *) intros key a. cbn [c_dec_cases dec_cases]. apply sim_charge_fail.
   - (* DCase *) intros k s IHs r IHr key a. cbn [c_dec_cases dec_cases].
-    destruct (key_matches k key); [apply sim_charge_then; apply IHs|apply IHr].
+    destruct (key_matches k key); [apply IHs|apply IHr].
 Qed.
 
 (* ================================================================ *)
